@@ -1109,7 +1109,13 @@ mod progs {
                     let a = self.list(d - 1, ind + 2, 0);
                     format!("{f}({a})")
                 }
-                8 => format!("({})", self.expr(d - 1, ind)),
+                8 => {
+                    if self.r.chance(1, 4) {
+                        format!("({}{},{})", self.expr(d - 1, ind), self.sp(), self.sp())      // a one-element tuple
+                    } else {
+                        format!("({})", self.expr(d - 1, ind))
+                    }
+                }
                 9 => format!("({})", self.list(d - 1, ind + 2, 2)),
                 10 => format!("[{}]", self.list(d - 1, ind + 2, 1)),
                 11 => {
@@ -1124,23 +1130,28 @@ mod progs {
                     let c = self.expr(d - 1, ind);
                     let t = self.expr(d - 1, ind);
                     let e = self.expr(d - 1, ind);
-                    match self.r.below(3) {
+                    match self.r.below(4) {
+                        3 => {
+                            // a condition without parentheses (a plain name or literal)
+                            let c0 = self.lit();
+                            format!("if {c0} {{{}{t}{}}}else{{{}{e}{}}}", self.spnl(ind + 2), self.spnl(ind), self.spnl(ind + 2), self.spnl(ind))
+                        }
                         0 => format!("if ({c}) {t} else {e}"),
                         1 => format!("if ({c}){{{}{t}{}}}else{{{}{e}{}}}", self.spnl(ind + 2), self.spnl(ind), self.spnl(ind + 2), self.spnl(ind)),
                         _ => format!("if ({c}) {{\n{}{t}\n{}}}", " ".repeat(ind + 2), " ".repeat(ind)),
                     }
                 }
                 13 => {
-                    let n = 1 + self.r.below(3) as usize;
+                    let n = self.r.below(4) as usize;      // 0: an empty parameter list `| |`
                     let ps: Vec<String> = (0..n).map(|_| format!("{}{}", self.id(), self.opt_ann())).collect();
                     let ret = self.opt_ret();
                     let body = self.expr(d - 1, ind);
                     if self.r.chance(1, 2) {
                         // a return annotation needs white space before an expression body that starts with a word
                         let gap = if ret.is_empty() { self.sp() } else { " " };
-                        format!("|{}|{ret}{gap}{body}", ps.join(","))
+                        format!("|{}|{ret}{gap}{body}", if ps.is_empty() { " ".to_string() } else { ps.join(",") })
                     } else {
-                        format!("|{}|{ret} {{\n{}{body}\n{}}}", ps.join(", "), " ".repeat(ind + 2), " ".repeat(ind))
+                        format!("|{}|{ret} {{\n{}{body}\n{}}}", if ps.is_empty() { " ".to_string() } else { ps.join(", ") }, " ".repeat(ind + 2), " ".repeat(ind))
                     }
                 }
                 14 => {
